@@ -168,8 +168,10 @@ def run(ck):
     wc = lib.single(prog, CL + "writeCookies")
     seq = [p_[1] for p_ in stream_sequence(wc, prog) if p_[0] == "lit"]
     afr = lib.single(prog, H + "CookieJar::addFromRaw")
-    seps = {a.get("const") for e in afr.calls(lambda e: (e.get("callee") or "") == "Pistache::match_until") for a in e.get("args", [])[:1]}
-    skip = any((e.get("callee") or "") == "Pistache::skip_whitespaces" for e in afr.events("call"))
+    # the splitter and the file-local helpers it was divided into
+    areg = lib.region(prog, afr, within=lambda g_: g_.file == afr.file and not g_.cls)
+    seps = {a.get("const") for g_ in areg for e in g_.calls(lambda e: (e.get("callee") or "") == "Pistache::match_until") for a in e.get("args", [])[:1]}
+    skip = any((e.get("callee") or "") == "Pistache::skip_whitespaces" for g_ in areg for e in g_.events("call"))
     ok = "Cookie: " in seq and "; " in seq and "=" in seq and "c:61" in seps and "c:59" in seps and skip
     ck.ob("C02-R3", "request-cookies:join-vs-split", ok, wc.loc, wc, "client joins with %s; server splits on %s and skips blanks=%s" % (sorted(set(seq)), sorted(x for x in seps if x), skip))
     sc = lib.single(prog, SV + "writeCookies")
